@@ -40,6 +40,10 @@ def plan(tier, seed):
     for i in range(9 if q else 60):  # utility in integer arithmetic (integer dtype meets a, b and beta)
         cases.append({"kind": "small", "law": ["affine", "horizon", "beta0"][i % 3], "template": "int_utility", "index": i, "seed": [seed, 114, i],
                       "cfg": "quick", "env": {"VERIF_X64": "1"}})
+    for i in range(9 if q else 60):  # models without state variables
+        law = ["affine", "horizon", "beta0"][i % 3]
+        cases.append({"kind": "small", "law": law, "template": "stateless_noperiod" if law == "horizon" else "stateless", "index": i, "seed": [seed, 115, i],
+                      "cfg": "quick", "env": {"VERIF_X64": "1"}})
     for i in range(9 if q else 48):
         cases.append({"kind": "large", "law": ["affine", "beta0", "horizon"][i % 3], "index": i, "seed": [seed, 112, i],
                       "size": ([60, 150, 4] if q else [[100, 500, 5], [200, 700, 6], [300, 1000, 8]][i % 3]), "filter": i % 2 == 1, "env": {"VERIF_X64": "1"}})
